@@ -22,7 +22,7 @@ func TestC01(t *testing.T) {
 			"payload ids are unique per publish, so a delivered payload names its publish",
 		},
 		Cases:           map[string]int{"quick": 1600, "thorough": 32000},
-		RequireCounters: []string{"publish_spanning_subscription_start", "recovered_incarnations", "insufficient_state_endings", "racer_publishes", "faults_injected", "alive_at_top"},
+		RequireCounters: []string{"loss_bursts_after_history_read", "publish_spanning_subscription_start", "recovered_incarnations", "insufficient_state_endings", "racer_publishes", "faults_injected", "alive_at_top"},
 		Run:             func(c *kit.Case) { posdeliv.RunCase(c, posdeliv.Options{Prefix: "c01"}) },
 	})
 }
